@@ -17,7 +17,7 @@ Reply: `<res>/<appended so far>` per op, then ` | ` and the appended entries `pl
   res: `-` · `some`/`none` (open) · `R<v>`/`Rn`/`P` (wait) · `t`/`f` (gc)
 
 Request 2 (T-trace): `trace <nslots> | <obs> <obs> …`  — evaluates the specification predicate
-  `Spec.accept` (the one the theorems `c06_spec_accepts` / `c13_spec_accepts` are about) on an observed history.
+  `Spec.accept` (`Model/KeepAliveSpec.lean`) on an observed history.
 Reply: `accept` or `reject:<index of the first rejected observation>`.
 -/
 namespace Driver.KeepAlive
